@@ -11,6 +11,7 @@ import (
 	"sort"
 	"strings"
 	"sync"
+	"unsafe"
 
 	"golang.org/x/tools/go/packages"
 	"golang.org/x/tools/go/ssa"
@@ -40,7 +41,7 @@ type BlkInfo struct {
 type FnInfo struct {
 	fn     *ssa.Function
 	nreg   int
-	reg    map[ssa.Value]int
+	reg    map[uintptr]int // register index by the address of the ssa value
 	blocks []*BlkInfo
 	allocs bool
 }
@@ -92,6 +93,11 @@ func LoadProgram(repo, harnessDir string, tags string) (*Program, error) {
 	return p, nil
 }
 
+// vkey: the address of the ssa value (interface data word) as a map key.
+func vkey(v ssa.Value) uintptr {
+	return (*[2]uintptr)(unsafe.Pointer(&v))[1]
+}
+
 func isReg(v ssa.Value) bool {
 	switch v.(type) {
 	case *ssa.Const, *ssa.Global, *ssa.Function, *ssa.Builtin:
@@ -119,10 +125,10 @@ func (p *Program) Info(fn *ssa.Function) *FnInfo {
 }
 
 func (p *Program) buildInfo(fn *ssa.Function) *FnInfo {
-	fi := &FnInfo{fn: fn, reg: map[ssa.Value]int{}}
+	fi := &FnInfo{fn: fn, reg: map[uintptr]int{}}
 	add := func(v ssa.Value) {
-		if _, ok := fi.reg[v]; !ok {
-			fi.reg[v] = fi.nreg
+		if _, ok := fi.reg[vkey(v)]; !ok {
+			fi.reg[vkey(v)] = fi.nreg
 			fi.nreg++
 		}
 	}
@@ -203,14 +209,14 @@ func (p *Program) buildInfo(fn *ssa.Function) *FnInfo {
 					if *op == nil || !isReg(*op) {
 						continue
 					}
-					r := fi.reg[*op]
+					r := fi.reg[vkey(*op)]
 					if !has(def[i], r) {
 						set(use[i], r)
 					}
 				}
 			}
 			if v, ok := ins.(ssa.Value); ok {
-				set(def[i], fi.reg[v])
+				set(def[i], fi.reg[vkey(v)])
 			}
 		}
 	}
@@ -224,7 +230,7 @@ func (p *Program) buildInfo(fn *ssa.Function) *FnInfo {
 				for _, ph := range fi.blocks[s.Index].phis {
 					e := ph.Edges[pi]
 					if isReg(e) {
-						set(phiU[i], fi.reg[e])
+						set(phiU[i], fi.reg[vkey(e)])
 					}
 				}
 			}
